@@ -30,14 +30,20 @@ from tools.vlib import hx, unhx
 def val_scss(v):
     if v[0] == 'l':
         return v[1]
+    if v[0] == 'q':
+        return '"' + v[1] + '"'
+    if v[0] == 'cm':      # function f<n> of module <m> reached as <prefix>
+        return f"{v[2]}f{v[1]}()"
     if v[0] == 'c':
         return f"f{v[1]}()"
     return "$undefined-variable"
 
 
 def val_term(v):
-    if v[0] == 'l':
+    if v[0] in 'lq':
         return ["l", "h" + hx(v[1])]
+    if v[0] == 'cm':
+        return ["c", str(v[1])]
     if v[0] == 'c':
         return ["c", str(v[1])]
     return ["u"]
@@ -95,7 +101,10 @@ class Render:
             return self.block(f"@mixin m{s[1]}", s[2], ind, module)
         if k == 'Y':
             home = self.mixin_home.get(s[1])
-            name = f"m{s[1]}" if home is None or home == module else f"mod{home}.m{s[1]}"
+            if len(s) > 3:                      # explicit qualified prefix, e.g. "mod1.p-"
+                name = f"{s[3]}m{s[1]}"
+            else:
+                name = f"m{s[1]}" if home is None or home == module else f"mod{home}.m{s[1]}"
             if s[2] is None:
                 return f"{pad}@include {name};\n"
             return self.block(f"@include {name}", s[2], ind, module)
@@ -107,10 +116,17 @@ class Render:
             return f"{pad}@return {val_scss(s[1])};\n"
         if k == 'P':
             self.files[f"imp{s[1]}.scss"] = self.body(s[2], 0, module)
+            if len(s) > 3 and s[3] == 'load-css':
+                return f'{pad}@include meta.load-css("imp{s[1]}");\n'
             return f'{pad}@import "imp{s[1]}";\n'
         if k == 'U':
             if f"mod{s[1]}.scss" not in self.files:
                 self.files[f"mod{s[1]}.scss"] = self.body(s[2], 0, s[1])
+            how = s[3] if len(s) > 3 else 'use'
+            if how == 'sass-meta':
+                return f'{pad}@use "sass:meta";\n'
+            if how.startswith('forward'):
+                return f'{pad}@forward "mod{s[1]}"{how[7:]};\n'
             return f'{pad}@use "mod{s[1]}";\n'
         raise ValueError(s)
 
@@ -159,6 +175,8 @@ def term(stmts):
         elif k == 'P':
             out += ["P"] + term(s[2])
         elif k == 'U':
+            if len(s) > 3 and s[3] == 'sass-meta':
+                continue
             out += ["U", str(s[1])] + term(s[2])
         else:
             raise ValueError(s)
@@ -552,7 +570,7 @@ class Ref:
         self.steps = 0
 
     def val(self, v):
-        if v[0] == 'l':
+        if v[0] in 'lq':
             return v[1]
         if v[0] == 'u':
             raise Reject("undefined variable")
@@ -592,7 +610,9 @@ class Ref:
                 self.entries.append(('D', path, None if sel is None else norm_sel(", ".join(sel)), ns + s[1], norm_ws(v)))
             elif k == 'C':
                 txt = "".join(p[1] if p[0] == 't' else (self.val(p[1]) or "") for p in s[2])
-                if not self.compressed or s[1]:
+                if txt.startswith("# sourceMappingURL=") or txt.startswith("# sourceURL="):
+                    pass     # the only comments that may be left out (source-map pragmas)
+                elif not self.compressed or s[1]:
                     self.entries.append(('C', path, None if sel is None else norm_sel(", ".join(sel)), norm_comment(txt)))
             elif k == 'S':
                 self.silent.append(s[1])
@@ -713,7 +733,7 @@ class Gen:
         self.w = dict(comment=0.0, silent=0.0, ns=0.15, nsat=0.0, atroot=0.3, atroot_decl=0.0,
                       keyframes=0.2, vendor=0.0, control=0.0, error=0.0, mixin=0.0, func=0.0,
                       load=0.0, media_in_media=0.3, bang=0.3, interp=0.2, undef=0.0, hash=0.0,
-                      multiline=0.0, arule=0.15, maxdepth=4)
+                      multiline=0.0, arule=0.15, maxdepth=4, pragma=0.0)
         self.w.update(w)
         self.mixins = []      # numbers defined so far (usable)
         self.funcs = []
@@ -745,6 +765,19 @@ class Gen:
         head = ("!" if bang else "") + (" c%d " % k)
         if not bang and self.p('hash'):
             head = "# c%d " % k
+        if self.p('pragma'):
+            pool = ["# sourceMappingURL=x%d " % k, "# sourceURL=y%d " % k, " sourceMappingURL=x%d " % k,
+                    " see sourceURL=y%d " % k, "#sourceMappingURL c%d " % k, "#sourceMappingURL=x%d " % k,
+                    "! sourceMappingURL=x%d " % k, "@ sourceMappingURL=x%d " % k, " c%d # sourceURL=z " % k]
+            head = r.choice(pool)
+            bang = head.startswith("!")
+            if r.random() < 0.4:
+                # the same words arriving through interpolation
+                cut = head.find("source")
+                parts.append(('t', head[:cut]))
+                parts.append(('i', ('q', head[cut:].rstrip())))
+                parts.append(('t', " "))
+                return ('C', bang, parts)
         parts.append(('t', head))
         if self.p('interp'):
             if self.p('undef'):
@@ -968,6 +1001,41 @@ class Gen:
                 prog += self.stmt(self.top_cx())
         return self.fix_includes(prog, False)
 
+    def comments(self, n=None):
+        out = []
+        for _ in range(self.rng.randint(1, 3) if n is None else n):
+            out.append(self.silent() if self.rng.random() < 0.25 else self.comment())
+        return out
+
+    def module_program(self):
+        """root -> @use mod1 -> (@use | @forward [as p-* | show | hide]) mod2; mod2 declares a mixin and a
+        function (with comments inside) that the root reaches through mod1; plus @import and meta.load-css
+        of files with comments; comments of all kinds everywhere"""
+        r = self.rng
+        how = r.choice(['forward', 'forward', 'forward as p-*', 'forward show m7, f7', 'forward hide nope', 'use'])
+        prefix = "mod1.p-" if how == 'forward as p-*' else "mod1."
+        mix = ('X', 7, self.comments() + [('R', 'mx', self.comments(1) + [self.decl(), ('K',)]), self.decl()] + self.comments(1))
+        fun = ('F', 7, self.comments(1) + [('T', ('l', "r%d" % self.nxt()))])
+        mod2 = self.comments() + [mix, fun, ('R', 'lib', self.comments(1) + [self.decl()])] + self.comments(1)
+        mod1 = self.comments(1) + [('U', 2, mod2, how)] + self.comments(1) + [('R', 'api', self.comments(1) + [self.decl()])]
+        root = [('U', 1, mod1), ('U', 0, [], 'sass-meta')]
+        root += self.comments()
+        use_lib = how != 'use'
+        body = self.comments(1) + [self.decl()]
+        if use_lib:
+            body += [('Y', 7, self.comments(1) + [self.decl()] if r.random() < 0.6 else None, prefix),
+                     ('D', "p%d" % self.nxt(), ('cm', 7, prefix))]
+        body += self.comments(1)
+        root.append(('R', 'x', body))
+        imp = self.comments() + [('R', 'imp', self.comments(1) + [self.decl()])]
+        self.nimps += 1
+        root.append(('P', self.nimps, imp) if r.random() < 0.5 else ('P', self.nimps, imp, 'load-css'))
+        if r.random() < 0.5:
+            self.nimps += 1
+            root.append(('P', self.nimps, self.comments() + [('R', 'lc', [self.decl()])], 'load-css'))
+        root += self.comments(1)
+        return root
+
     def fix_includes(self, stmts, has_rule):
         """a mixin whose body has bare declarations may only be included inside a rule"""
         out = []
@@ -1022,6 +1090,14 @@ def shrink_case(case, still_fails, budget=60):
     from tools.vlib import Case
     prog, compressed = prog_of(case.lines[0])
     style = "c" if compressed else "e"
+    try:
+        roundtrip = case_line(prog, style).split("\t")[5:7] == case.lines[0].split("\t")[5:7]
+    except Exception:
+        roundtrip = False
+    if not roundtrip:
+        # the term does not carry how a file is loaded (@forward, load-css, qualified names):
+        # re-rendering would change the program, so such a case is reported as it is
+        return case
     best = prog
     progress = True
     while progress and budget > 0:
